@@ -553,6 +553,7 @@ func genScript(t *rapid.T, data []byte) Script {
 		} else {
 			s.FailAt = rapid.IntRange(0, len(data)).Draw(t, "failat")
 		}
+		s.FailErr = rapid.SampledFrom([]string{"", "", "unexpected-eof", "unexpected-eof", "wrapped-eof", "closed-pipe"}).Draw(t, "failerr")
 	}
 	s.Closable = rapid.Bool().Draw(t, "closable")
 	return s
@@ -683,6 +684,9 @@ func scriptLabels(s Script) (nt bool, labels []string) {
 	if s.EOFWithData && len(s.Data) > 0 && s.FailAt < 0 {
 		labels = append(labels, "data+EOF")
 		nt = true
+	}
+	if s.FailAt >= 0 && s.FailErr != "" {
+		labels = append(labels, "stream fails with "+s.FailErr)
 	}
 	if s.FailAt >= 0 {
 		labels = append(labels, "read error at an offset")
